@@ -23,6 +23,11 @@ def steps(token, key, frame, bad_token, bad_key):
         "send_garbage": ("send", frame, "ok", "garbage"),
         "send_hs_silent": ("send", frame, "silent", "ok"),
         "send_hs_error": ("send", frame, "error", "ok"),
+        "send_hs_bad": ("send", frame, "bad", "ok"),          # handshake reply made with another key
+        "send_hs_garbage": ("send", frame, "garbage", "ok"),
+        "send_reset": ("send", frame, "ok", "reset"),
+        "send_push": ("send", frame, "ok", "okpush"),         # + an unsolicited frame pushed afterwards         # peer RST: connection_lost(exc)
+        "auth_reply_bad": ("auth", token, key, "bad", "ok"),
         "auth_good": ("auth", token, key, "ok", "ok"),
         "auth_bad": ("auth", bad_token, bad_key, "ok", "ok"),
         "auth_silent": ("auth", token, key, "silent", "ok"),
@@ -127,9 +132,14 @@ def run_one(ctx, stream, rng, names, with_life):
 def long_session(ctx, rng, n):
     token, key = rb(rng, 64), rb(rng, 32)
     frame = get_frame()
-    ops = [("auth", token, key, "ok", "ok")] + [("send", frame, "ok", "ok")] * n
+    # ... and after the long run the authentication expires: the re-handshake continues the counter
+    ops = ([("auth", token, key, "ok", "ok")] + [("send", frame, "ok", "ok")] * n +
+           [("adv", 13 * 3600 * 1000), ("send", frame, "ok", "ok"), ("send", frame, "ok", "ok")])
     res = sessim.run_history(3, ops, "director", ["o"], token, key)
-    inp = {"history": f"{n} sends on one connection"}
+    inp = {"history": f"{n} sends on one connection, +13 h, 2 sends"}
+    if not any(e["kind"] == "hs" and e["counter"] != 0 for e in res["dev"].log):
+        ctx.violate("long_session", inp, "no re-handshake on the long-lived connection", "a handshake request with the running counter",
+                    "the expiry after a long session did not lead to a handshake on the same connection")
     device_oracle(ctx, "long_session", inp, res)
     bad = [o for o in res["outcomes"] if not (o.startswith("frames:") or o == "done")]
     if bad:
@@ -142,7 +152,7 @@ def run(ctx):
     rng = ctx.rng
     thorough = ctx.tier == "thorough"
     alphabet = ["send", "send_silent", "send_error", "send_close", "send_garbage", "send_hs_silent", "auth_good", "auth_bad",
-                "auth_silent", "clock_13h", "clock_life", "refused"]
+                "auth_silent", "clock_13h", "clock_life", "refused", "send_hs_bad", "send_reset", "send_push"]
     jumps = ["clock_12h1s", "clock_25h", "clock_49h", "clock_8d"]
     depth = 3 if thorough else 2
     for k in range(1, depth + 1):
@@ -155,12 +165,26 @@ def run(ctx):
         for pre in (["send"], [], ["auth_good"], ["send_silent"]):
             run_one(ctx, "expiry_jumps", rng, pre + [j, "send"], with_life=False)
             run_one(ctx, "expiry_jumps", rng, pre + [j, "send", j, "send"], with_life=False)
+    # a re-handshake (after the 12 h expiry, on the same connection) that FAILS must not refresh anything:
+    # the following exchange has to handshake again
+    hs_faults = ["send_hs_bad", "send_hs_error", "send_hs_silent", "send_hs_garbage", "auth_reply_bad", "auth_bad"]
+    for j in ["clock_13h", "clock_25h"]:
+        for f in hs_faults:
+            for pre in ([], ["send"]):
+                run_one(ctx, "rehandshake_fault", rng, pre + [j, f, "send", "send"], with_life=False)
+                run_one(ctx, "rehandshake_fault", rng, pre + [j, f, j, "send"], with_life=False)
+    # an explicit authenticate that FAILS on a connection whose key is still valid must not leave that key
+    # in use (finding D12, fixed): the following exchange handshakes again
+    for f in ["auth_reply_bad", "auth_bad", "auth_silent", "auth_cancel"]:
+        for pre in ([], ["send"], ["send", "send"]):
+            run_one(ctx, "reauth_fault", rng, pre + [f, "send"], with_life=False)
+            run_one(ctx, "reauth_fault", rng, pre + [f, f, "send", "send"], with_life=False)
     cancels = ["send_cancel_1", "send_cancel_2", "send_cancel_hs", "auth_cancel"]
     for c in cancels:
         for pre in ([], ["send"], ["send_close"], ["clock_13h"], ["auth_bad"]):
             for post in (["send"], ["send", "send"], ["auth_good", "send"]):
                 run_one(ctx, "cancel", rng, pre + [c] + post, with_life=False)
-    alphabet = alphabet + jumps + cancels
+    alphabet = alphabet + jumps + cancels + ["send_hs_error", "send_hs_garbage", "auth_reply_bad"]
     for _ in range(150 if not thorough else 3000):
         names = [rng.choice(alphabet) for _ in range(rng.randrange(3, 13 if not thorough else 31))]
         run_one(ctx, "random", rng, names, with_life=rng.random() < 0.4)
